@@ -889,3 +889,213 @@ Proof.
     cbn [run_groups]. rewrite grp_text by assumption. cbn [rd_bind t_dbg t_blocks t_labels t_rel].
     unfold finish_obj. cbn. eexists. split; [reflexivity|]. split; [reflexivity|exact Logic.I].
 Qed.
+
+(* ------------------------------------------------------------------------------------------ *)
+(* from the text back to the lines *)
+Lemma nl_free_app a b : nl_free (a ++ b) = nl_free a && nl_free b.
+Proof. unfold nl_free. apply forallb_app. Qed.
+Lemma nl_free_printable s : forallb printable s = true -> nl_free s = true.
+Proof.
+  intro H. unfold nl_free. apply forallb_forall. intros x Hx. rewrite forallb_forall in H. specialize (H x Hx).
+  unfold printable in H. btrue. apply andb_true_iff. split; apply negb_true_iff; apply Z.eqb_neq; lia.
+Qed.
+Lemma nl_free_no_ws s : no_ws s = true -> nl_free s = true.
+Proof.
+  unfold no_ws. intro H. unfold nl_free. apply forallb_forall. intros x Hx. rewrite forallb_forall in H. specialize (H x Hx).
+  apply negb_true_iff in H. apply andb_true_iff. split; apply negb_true_iff; apply Z.eqb_neq; intro E; subst; discriminate.
+Qed.
+Lemma nl_free_digits u s : forallb (is_digit_char u) s = true -> nl_free s = true.
+Proof. intro H. apply nl_free_no_ws. eapply digits_no_ws. exact H. Qed.
+Lemma nl_free_spaces k : nl_free (repeat 32 k) = true.
+Proof. unfold nl_free. apply forallb_forall. intros x Hx. apply repeat_spec in Hx. subst. reflexivity. Qed.
+Lemma nl_free_hex4 v : 0 <= v < 65536 -> nl_free (hex4 v) = true.
+Proof. intro H. eapply nl_free_digits. apply hex4_digits. exact H. Qed.
+Lemma nl_free_dec n : 0 <= n -> nl_free (fmt_dec n) = true.
+Proof. intro H. destruct (fmt_radix_spec 10 false n ltac:(lia) H) as (_ & H2 & _). eapply nl_free_digits. exact H2. Qed.
+Lemma nl_free_tword w : word_ok w -> nl_free (tword w) = true.
+Proof. destruct w as [v|]; cbn [word_ok tword]; intro H; [apply nl_free_hex4; exact H|reflexivity]. Qed.
+Lemma nl_free_pad_left w s : nl_free s = true -> nl_free (pad_left 32 w s) = true.
+Proof. intro H. unfold pad_left. rewrite nl_free_app, nl_free_spaces, H. reflexivity. Qed.
+Lemma nl_free_pad_right w s : nl_free s = true -> nl_free (pad_right 32 w s) = true.
+Proof. intro H. unfold pad_right. rewrite nl_free_app, nl_free_spaces, H. reflexivity. Qed.
+Lemma nl_free_label l : label_text_ok l = true -> nl_free l = true.
+Proof. intro H. apply nl_free_no_ws. apply label_ok_no_ws. exact H. Qed.
+
+Lemma tblock_lines_nlfree b : block_inv b = true -> Forall (fun l => nl_free l = true) (tblock_lines b).
+Proof.
+  unfold block_inv, in_u16. intro H. apply andb_true_iff in H. destruct H as [H Hws].
+  apply andb_true_iff in H. destruct H as [Ha Hlen]. btrue. unfold tblock_lines. pose proof (len_nonneg (snd b)).
+  constructor; [apply nl_free_hex4; lia|]. constructor; [apply nl_free_dec; lia|].
+  apply Forall_forall. intros l Hl. apply in_map_iff in Hl. destruct Hl as [w [<- Hw]].
+  rewrite forallb_forall in Hws. specialize (Hws w Hw). apply nl_free_tword.
+  destruct w as [v|]; cbn; [unfold in_u16 in Hws; btrue; lia|exact Logic.I].
+Qed.
+Lemma sym_lines_nlfree st blocks : sym_facts blocks st -> Forall (fun l => nl_free l = true) (sym_lines st).
+Proof.
+  intro F. unfold sym_lines.
+  repeat (apply Forall_app; split); try (repeat constructor; reflexivity).
+  - destruct (st_labels st) as [|p0 l0] eqn:E; [constructor|]. rewrite <- E. constructor; [reflexivity|].
+    apply Forall_forall. intros l Hl. apply in_map_iff in Hl. destruct Hl as [p [<- Hp]].
+    assert (Hok : sym_entry_ok p) by (pose proof (sf_sym _ _ F) as G; rewrite Forall_forall in G; apply G; eapply Permutation_in; [apply sort_by_perm|exact Hp]).
+    destruct Hok as [Ha Hl]. unfold sym_row. rewrite !nl_free_app. rewrite nl_free_hex4 by exact Ha. rewrite (nl_free_label _ Hl).
+    destruct (sd_external (snd p)); reflexivity.
+  - destruct (st_rel st) as [|p0 l0] eqn:E; [constructor|]. rewrite <- E. constructor; [reflexivity|].
+    apply Forall_forall. intros l Hl. apply in_map_iff in Hl. destruct Hl as [p [<- Hp]].
+    assert (Hok : rel_entry_ok p) by (pose proof (sf_rel _ _ F) as G; rewrite Forall_forall in G; apply G; eapply Permutation_in; [apply sort_by_perm|exact Hp]).
+    destruct Hok as [Ha Hl]. unfold rel_row. rewrite !nl_free_app. rewrite nl_free_hex4 by exact Ha. rewrite (nl_free_label _ Hl). reflexivity.
+  - unfold label_table_lines. destruct (st_labels st) as [|p0 l0] eqn:E; [constructor|]. rewrite <- E. constructor.
+    + rewrite !nl_free_app. rewrite !nl_free_pad_right by reflexivity. reflexivity.
+    + apply Forall_forall. intros l Hl. apply in_map_iff in Hl. destruct Hl as [p [<- Hp]].
+      assert (Hok : idx_entry_ok p) by (pose proof (sf_idx _ _ F) as G; rewrite Forall_forall in G; apply G; eapply Permutation_in; [apply sort_by_perm|exact Hp]).
+      destruct Hok as [Hs Hl]. unfold idx_row. rewrite !nl_free_app. rewrite nl_free_pad_right by (apply nl_free_label; exact Hl).
+      rewrite nl_free_pad_left by (apply nl_free_dec; lia). reflexivity.
+  - destruct (st_debug st) as [d|] eqn:Ed; [|constructor]. destruct (sf_dbg _ _ F d Ed) as [Hdi Hdt].
+    apply Forall_app. split; [|repeat constructor; reflexivity].
+    destruct (line_table_eq d Hdi Hdt) as (Et & Hrin & Elen). unfold line_table_lines.
+    destruct (line_table d) as [|t0 ts] eqn:E; [constructor|]. constructor.
+    + rewrite !nl_free_app. rewrite nl_free_pad_right by reflexivity. reflexivity.
+    + apply Forall_forall. intros l Hl. apply in_map_iff in Hl. destruct Hl as [[k m] [<- Hp]].
+      rewrite Et in Hp. unfold tbl in Hp. pose proof (in_combine_l _ _ _ _ Hp) as Hk. apply seqz_in in Hk.
+      pose proof (in_combine_r _ _ _ _ Hp) as Hm.
+      assert (Hwok : word_ok m).
+      { pose proof (vec_word_ok (ds_lines d) 0 (count_lines (ds_src d))) as G. unfold debug_inv in Hdi. btrue.
+        match goal with Hr : forallb run_inv _ = true |- _ => specialize (G Hr) end. rewrite Forall_forall in G. apply G. exact Hm. }
+      unfold line_row. cbn [fst snd]. rewrite !nl_free_app. rewrite nl_free_pad_left by (apply nl_free_dec; lia).
+      rewrite nl_free_tword by exact Hwok.
+      rewrite (nl_free_printable (escape _)); [reflexivity|].
+      apply escape_printable.
+      (* the raw line is a part of the (valid) source *)
+      unfold debug_inv in Hdi. btrue. unfold valid_str in *. apply forallb_forall. intros x Hx.
+      match goal with Hv : forallb is_scalar (ds_src d) = true |- _ => rewrite forallb_forall in Hv; apply Hv end.
+      unfold src_line in Hx. destruct (raw_line_span (ds_src d) k) as [[a b]|]; [|destruct Hx].
+      unfold substr in Hx. clear -Hx. revert Hx. generalize 0 at 1. induction (ds_src d) as [|c s IH]; intros o Hx; [destruct Hx|].
+      cbn [sub_from] in Hx. destruct ((a <=? o) && (o <? b)); [destruct Hx as [->|Hx]; [left; reflexivity|right; eapply IH; exact Hx]|right; eapply IH; exact Hx].
+Qed.
+
+Lemma ln_blanks blanks : Forall (fun l : str => l = []) blanks -> forallb is_ws (flat_map ln blanks) = true.
+Proof. induction 1 as [|l bl Hl _ IH]; [reflexivity|]. subst l. cbn [flat_map ln app forallb]. exact IH. Qed.
+
+Theorem lines_of_text Ls0 Llast blanks h X c :
+  Forall (fun l => nl_free l = true) (Ls0 ++ [Llast]) ->
+  flat_map ln Ls0 ++ Llast = (h :: X) ++ [c] -> is_ws h = false -> is_ws c = false -> Llast <> [] ->
+  Forall (fun l : str => l = []) blanks ->
+  lines (trim (flat_map ln (Ls0 ++ [Llast] ++ blanks))) = Ls0 ++ [Llast].
+Proof.
+  intros Hnl E Hh Hc Hne Hb.
+  rewrite !flat_map_app. cbn [flat_map]. rewrite app_nil_r. unfold ln at 2.
+  replace (flat_map ln Ls0 ++ (Llast ++ [10]) ++ flat_map ln blanks)
+    with ((flat_map ln Ls0 ++ Llast) ++ [10] ++ flat_map ln blanks) by (rewrite <- !app_assoc; reflexivity).
+  rewrite E. rewrite <- app_assoc.
+  destruct (trim_text h X c ([10] ++ flat_map ln blanks) Hh Hc) as [T _].
+  { cbn [app forallb]. apply ln_blanks. exact Hb. }
+  rewrite T. rewrite <- E. apply Forall_app in Hnl. destruct Hnl as [Hn1 Hn2]. inversion Hn2 as [|? ? Hn3 _]; subst.
+  apply lines_join; assumption.
+Qed.
+
+Definition solid (l : str) : Prop := l <> [] /\ no_ws l = true.
+Lemma solid_last l : solid l -> exists Y c, l = Y ++ [c] /\ is_ws c = false.
+Proof.
+  intros [Hne Hw]. destruct (exists_last Hne) as (Y & c & E). exists Y, c. split; [exact E|].
+  unfold no_ws in Hw. rewrite forallb_forall in Hw. specialize (Hw c ltac:(rewrite E; apply in_or_app; right; left; reflexivity)).
+  apply negb_true_iff in Hw. exact Hw.
+Qed.
+Lemma digits_solid u s : s <> [] -> forallb (is_digit_char u) s = true -> solid s.
+Proof. intros H1 H2. split; [exact H1|eapply digits_no_ws; exact H2]. Qed.
+Lemma tblock_lines_solid b : block_inv b = true -> Forall solid (tblock_lines b).
+Proof.
+  unfold block_inv, in_u16. intro H. apply andb_true_iff in H. destruct H as [H Hws].
+  apply andb_true_iff in H. destruct H as [Ha Hlen]. btrue. unfold tblock_lines. pose proof (len_nonneg (snd b)).
+  assert (Hhex : forall v, 0 <= v < 65536 -> solid (hex4 v)).
+  { intros v Hv. destruct (hex4_props v Hv) as (_ & H2 & H3 & _). apply (digits_solid true); [|exact H3]. intro E. rewrite E in H2. discriminate. }
+  constructor; [apply Hhex; lia|]. constructor.
+  { destruct (fmt_radix_spec 10 false (len (snd b)) ltac:(lia) ltac:(lia)) as (Hf1 & Hf2 & _). apply (digits_solid false); assumption. }
+  apply Forall_forall. intros l Hl. apply in_map_iff in Hl. destruct Hl as [w [<- Hw]].
+  rewrite forallb_forall in Hws. specialize (Hws w Hw). destruct w as [v|]; cbn [tword].
+  - apply Hhex. unfold in_u16 in Hws. btrue. lia.
+  - split; [discriminate|reflexivity].
+Qed.
+
+Lemma magic_head A' Llast' c : exists X, flat_map ln (TFMT_MAGIC :: A') ++ (Llast' ++ [c]) = (76 :: X) ++ [c].
+Proof.
+  cbn [flat_map]. unfold ln at 1. change TFMT_MAGIC with (76 :: s2z "C-3 OBJ FILE").
+  eexists. rewrite app_assoc. cbn [app]. reflexivity.
+Qed.
+
+Lemma sym_lines_last st : exists B, sym_lines st = B ++ [DIVIDER].
+Proof.
+  unfold sym_lines. destruct (st_debug st) as [d|].
+  - eexists. rewrite !app_assoc. reflexivity.
+  - eexists. rewrite app_nil_r. rewrite !app_assoc. reflexivity.
+Qed.
+
+Lemma filter_lines_text o : text_inv o = true ->
+  filter keep_line (lines (trim (ser_text o))) = filter keep_line (text_lines o).
+Proof.
+  intro H. destruct (text_inv_facts o H) as (Hbl & Hss & Hsym). unfold ser_text.
+  assert (Hnl : Forall (fun l => nl_free l = true) (text_lines o)).
+  { unfold text_lines. repeat (apply Forall_app; split); try (repeat constructor; reflexivity).
+    - clear -Hbl. induction (o_blocks o) as [|b bl IH]; [constructor|]. apply forallb_cons_iff in Hbl. destruct Hbl as [Hb Hbl].
+      cbn [flat_map]. apply Forall_app. split; [apply tblock_lines_nlfree; exact Hb|apply IH; exact Hbl].
+    - destruct (o_sym o) as [st|]; [|constructor]. apply (sym_lines_nlfree st (o_blocks o)). apply Hsym. reflexivity. }
+  destruct (o_sym o) as [st|] eqn:Es.
+  - (* the text ends with a divider *)
+    destruct (sym_lines_last st) as [B EB].
+    assert (E : text_lines o = (TFMT_MAGIC :: [] :: s2z ".TEXT" :: flat_map tblock_lines (o_blocks o) ++ [[]] ++ B) ++ [DIVIDER] ++ []).
+    { unfold text_lines. rewrite Es, EB. cbn [app]. rewrite <- !app_assoc. cbn [app]. reflexivity. }
+    rewrite E in *. clear E.
+    change DIVIDER with (s2z "===================" ++ [61]) in *.
+    destruct (magic_head ([] :: s2z ".TEXT" :: flat_map tblock_lines (o_blocks o) ++ [[]] ++ B) (s2z "===================") 61) as [X EX].
+    rewrite (lines_of_text _ _ [] 76 X 61 Hnl EX eq_refl eq_refl).
+    + cbn [app]. reflexivity.
+    + destruct (s2z "==================="); discriminate.
+    + constructor.
+  - (* no symbol table: the text ends with the last line of .TEXT and a blank line *)
+    assert (Hsol : Forall solid (s2z ".TEXT" :: flat_map tblock_lines (o_blocks o))).
+    { constructor; [split; [discriminate|reflexivity]|]. clear -Hbl.
+      induction (o_blocks o) as [|b bl IH]; [constructor|]. apply forallb_cons_iff in Hbl. destruct Hbl as [Hb Hbl].
+      cbn [flat_map]. apply Forall_app. split; [apply tblock_lines_solid; exact Hb|apply IH; exact Hbl]. }
+    destruct (@exists_last _ (s2z ".TEXT" :: flat_map tblock_lines (o_blocks o)) ltac:(discriminate)) as (Y0 & y & EY).
+    assert (Hy : solid y) by (rewrite Forall_forall in Hsol; apply Hsol; rewrite EY; apply in_or_app; right; left; reflexivity).
+    destruct (solid_last y Hy) as (Yy & c & Ey & Hc).
+    assert (E : text_lines o = (TFMT_MAGIC :: [] :: Y0) ++ [y] ++ [[]]).
+    { unfold text_lines. rewrite Es. rewrite app_nil_r.
+      change ([TFMT_MAGIC; []; s2z ".TEXT"] ++ flat_map tblock_lines (o_blocks o) ++ [[]])
+        with (TFMT_MAGIC :: [] :: (s2z ".TEXT" :: flat_map tblock_lines (o_blocks o)) ++ [[]]).
+      rewrite EY. rewrite <- app_assoc. reflexivity. }
+    rewrite E in *. clear E. subst y.
+    destruct (magic_head ([] :: Y0) Yy c) as [X EX].
+    assert (Hnl' : Forall (fun l => nl_free l = true) ((TFMT_MAGIC :: [] :: Y0) ++ [Yy ++ [c]])).
+    { rewrite app_assoc in Hnl. apply Forall_app in Hnl. apply Hnl. }
+    rewrite (lines_of_text _ _ [[]] 76 X c Hnl' EX eq_refl Hc).
+    + rewrite !filter_app. change (filter keep_line [[]]) with (@nil str). rewrite app_nil_r. reflexivity.
+    + destruct Yy; discriminate.
+    + repeat constructor.
+Qed.
+
+(* text_inv does not depend on the order of the label / relocation lists *)
+Lemma text_inv_equiv o o' : obj_equiv o o' -> text_inv o = true -> text_inv o' = true.
+Proof.
+  intros E. unfold text_inv. intro H. apply andb_true_iff in H. destruct H as [Hi Ht].
+  apply andb_true_iff. split; [eapply obj_inv_equiv; eassumption|].
+  destruct E as [_ Es]. destruct (o_sym o) as [s|], (o_sym o') as [s'|]; try contradiction; [|reflexivity].
+  destruct Es as (P1 & P2 & Ed). rewrite <- Ed.
+  apply andb_true_iff in Ht. destruct Ht as [Ht Hd]. apply andb_true_iff in Ht. destruct Ht as [Hl Hr].
+  repeat (apply andb_true_iff; split); [eapply forallb_perm; eassumption|eapply forallb_perm; eassumption|exact Hd].
+Qed.
+Lemma obj_equiv_trans a b c : obj_equiv a b -> obj_equiv b c -> obj_equiv a c.
+Proof.
+  intros [H1 H2] [H3 H4]. split; [congruence|].
+  destruct (o_sym a), (o_sym b), (o_sym c); try contradiction; [|exact Logic.I].
+  destruct H2 as (P1 & P2 & E1). destruct H4 as (P3 & P4 & E2).
+  repeat split; [eapply Permutation_trans; eassumption|eapply Permutation_trans; eassumption|congruence].
+Qed.
+
+(* C18 *)
+Theorem text_roundtrip o : text_inv o = true ->
+  forall o_w, obj_equiv o o_w -> exists o', deser_text (ser_text o_w) = ROk o' /\ obj_equiv o o'.
+Proof.
+  intros H o_w E. pose proof (text_inv_equiv o o_w E H) as Hw.
+  unfold deser_text. rewrite (filter_lines_text o_w Hw).
+  destruct (deser_lines_text o_w Hw) as (o' & E1 & E2). exists o'. split; [exact E1|].
+  eapply obj_equiv_trans; eassumption.
+Qed.
